@@ -1,57 +1,222 @@
 /-
 C06 — single loader per key: a small-step interleaving model of `doTake`'s load running inside
-`barrier.DoEx` (core/syncx/singleflight.go: createCall / makeCall), for ONE key and an arbitrary number of
-reader goroutines (`Tid := Nat`, any schedule).
+`barrier.DoEx` (core/syncx/singleflight.go: createCall / makeCall / DoEx), for ONE key and an arbitrary number
+of reader goroutines (`Tid := Nat`, any schedule), carrying the RESULT of the call.
 
   pc 0  createCall under g.lock: no call registered → register mine (leader, pc 1); else → wait on it (pc 3)
   pc 1  leader inside fn: cache miss seen, database query starts                               (pc 2)
-  pc 2  database query returns; fn caches and returns; deferred: delete(calls,key); wg.Done    (pc 4)
-  pc 3  follower: c.wg.Wait() returns once the call it joined is done, takes the call's value  (pc 4)
+  pc 2  database query returns `q id`; fn caches and returns; makeCall stores c.val, c.err;
+        deferred: delete(calls,key); wg.Done; DoEx returns c.val                                (pc 4)
+  pc 3  follower: c.wg.Wait() returns once the call it joined is done; DoEx returns c.val       (pc 4)
   pc 4  returned
-`flight` is `g.calls[key]` (the leader's id), `gen` counts finished calls, `joined t` the call a follower waits on.
+`flight` is `g.calls[key]` (the leader's id), `gen` counts finished calls = the id of the current call,
+`joined t` the call goroutine `t` created or joined, `callVal id` is `c.val, c.err` of call `id` once fn has
+returned, `got t` what DoEx returned to `t`, `queries` the number of database queries started.
+`q : Nat → α` is the environment: what the database answers to the query of call `id` (row, not-found or an
+error — anything; the theorems hold for every `q`).
 -/
 namespace GoZero.C06.Flight
 
-structure Cfg where
-  pc     : Nat → Nat
-  flight : Option Nat
-  gen    : Nat
-  joined : Nat → Nat
+structure Cfg (α : Type) where
+  pc      : Nat → Nat
+  flight  : Option Nat
+  gen     : Nat
+  joined  : Nat → Nat
+  queries : Nat
+  callVal : Nat → Option α
+  got     : Nat → Option α
 
-def upd (f : Nat → Nat) (t v : Nat) : Nat → Nat := fun u => if u = t then v else f u
+def upd {β : Type} (f : Nat → β) (t : Nat) (v : β) : Nat → β := fun u => if u = t then v else f u
 
-def Cfg.init : Cfg := { pc := fun _ => 0, flight := none, gen := 0, joined := fun _ => 0 }
+def Cfg.init {α : Type} : Cfg α :=
+  { pc := fun _ => 0, flight := none, gen := 0, joined := fun _ => 0, queries := 0,
+    callVal := fun _ => none, got := fun _ => none }
 
-def step (s : Cfg) (t : Nat) : Option Cfg :=
+variable {α : Type}
+
+def step (q : Nat → α) (s : Cfg α) (t : Nat) : Option (Cfg α) :=
   match s.pc t with
   | 0 => match s.flight with
-    | none => some { s with pc := upd s.pc t 1, flight := some t }
+    | none => some { s with pc := upd s.pc t 1, flight := some t, joined := upd s.joined t s.gen }
     | some _ => some { s with pc := upd s.pc t 3, joined := upd s.joined t s.gen }
-  | 1 => some { s with pc := upd s.pc t 2 }
-  | 2 => some { s with pc := upd s.pc t 4, flight := none, gen := s.gen + 1 }
-  | 3 => if s.joined t < s.gen then some { s with pc := upd s.pc t 4 } else none
+  | 1 => some { s with pc := upd s.pc t 2, queries := s.queries + 1 }
+  | 2 => some { s with pc := upd s.pc t 4, flight := none, gen := s.gen + 1,
+                       callVal := upd s.callVal s.gen (some (q s.gen)), got := upd s.got t (some (q s.gen)) }
+  | 3 => if s.joined t < s.gen then some { s with pc := upd s.pc t 4, got := upd s.got t (s.callVal (s.joined t)) } else none
   | _ => none
 
-inductive Reachable : Cfg → Prop
-  | init : Reachable Cfg.init
-  | step {s s' : Cfg} (t : Nat) : Reachable s → step s t = some s' → Reachable s'
+inductive Reachable (q : Nat → α) : Cfg α → Prop
+  | init : Reachable q Cfg.init
+  | step {s s' : Cfg α} (t : Nat) : Reachable q s → step q s t = some s' → Reachable q s'
 
 /-- a goroutine in the leader region (pc 1 or 2) is the registered call's owner. -/
-def Inv (s : Cfg) : Prop := ∀ t, (s.pc t = 1 ∨ s.pc t = 2) → s.flight = some t
+def Inv (s : Cfg α) : Prop := ∀ t, (s.pc t = 1 ∨ s.pc t = 2) → s.flight = some t
 
-theorem inv_init : Inv Cfg.init := by
+theorem inv_init : Inv (Cfg.init : Cfg α) := by
   intro t h; simp [Cfg.init] at h
 
-theorem inv_step {s s' : Cfg} {t : Nat} (h : Inv s) (hs : step s t = some s') : Inv s' := by
+theorem inv_step {q : Nat → α} {s s' : Cfg α} {t : Nat} (h : Inv s) (hs : step q s t = some s') : Inv s' := by
   unfold step at hs
   intro u hu
   have h1 := h u
   have h2 := h t
   split at hs <;> (try split at hs) <;> simp at hs <;> (try subst hs) <;> simp [upd] at * <;> grind
 
-theorem inv_reachable {s : Cfg} (h : Reachable s) : Inv s := by
+theorem inv_reachable {q : Nat → α} {s : Cfg α} (h : Reachable q s) : Inv s := by
   induction h with
   | init => exact inv_init
   | step t _ hs ih => exact inv_step ih hs
+
+/-! ### the shared result -/
+
+/-- bookkeeping invariant: the registered call's owner is in the leader region and leads the current call;
+waiters joined a call that is the current one or finished; finished calls hold the answer of their query;
+a goroutine that returned holds the answer of the query of the call it created or joined; one query per call. -/
+structure Inv2 (q : Nat → α) (s : Cfg α) : Prop where
+  owner   : ∀ l, s.flight = some l → (s.pc l = 1 ∨ s.pc l = 2)
+  leader  : ∀ t, (s.pc t = 1 ∨ s.pc t = 2) → s.joined t = s.gen
+  waiter  : ∀ t, s.pc t = 3 → s.joined t ≤ s.gen
+  done    : ∀ g, g < s.gen → s.callVal g = some (q g)
+  ret     : ∀ t, s.pc t = 4 → s.joined t < s.gen ∧ s.got t = some (q (s.joined t))
+  count   : s.queries = s.gen + (match s.flight with | some l => if s.pc l = 2 then 1 else 0 | none => 0)
+
+theorem inv2_init (q : Nat → α) : Inv2 q (Cfg.init : Cfg α) := by
+  refine ⟨?_, ?_, ?_, ?_, ?_, ?_⟩ <;> simp [Cfg.init]
+
+theorem inv2_step {q : Nat → α} {s s' : Cfg α} {t : Nat} (h1 : Inv s) (h : Inv2 q s)
+    (hs : step q s t = some s') : Inv2 q s' := by
+  unfold step at hs
+  split at hs
+  · -- pc 0
+    rename_i hpc
+    split at hs
+    · rename_i hfl
+      cases hs
+      refine ⟨?_, ?_, ?_, ?_, ?_, ?_⟩
+      · intro l hl; simp at hl; subst hl; simp [upd]
+      · intro u hu
+        by_cases hut : u = t
+        · subst hut; simp [upd]
+        · simp [upd, hut] at hu ⊢
+          have := h1 u hu; rw [hfl] at this; cases this
+      · intro u hu
+        by_cases hut : u = t
+        · subst hut; simp [upd] at hu
+        · simp [upd, hut] at hu ⊢; exact h.waiter u hu
+      · exact h.done
+      · intro u hu
+        by_cases hut : u = t
+        · subst hut; simp [upd] at hu
+        · simp [upd, hut] at hu ⊢; exact h.ret u hu
+      · have := h.count; rw [hfl] at this; simp [upd, this]
+    · rename_i l hfl
+      cases hs
+      have hlt : l ≠ t := by
+        intro e; subst e
+        have := h.owner l hfl
+        omega
+      refine ⟨?_, ?_, ?_, ?_, ?_, ?_⟩
+      · intro l' hl'; simp at hl'; rw [hfl] at hl'; cases hl'
+        have := h.owner l hfl
+        simp [upd, hlt]; exact this
+      · intro u hu
+        by_cases hut : u = t
+        · subst hut; simp [upd] at hu
+        · simp [upd, hut] at hu ⊢; exact h.leader u hu
+      · intro u hu
+        by_cases hut : u = t
+        · subst hut; simp [upd]
+        · simp [upd, hut] at hu ⊢; exact h.waiter u hu
+      · exact h.done
+      · intro u hu
+        by_cases hut : u = t
+        · subst hut; simp [upd] at hu
+        · simp [upd, hut] at hu ⊢; exact h.ret u hu
+      · have := h.count; rw [hfl] at this; simp [upd, hfl, hlt, this]
+  · -- pc 1: the query starts
+    rename_i hpc
+    cases hs
+    have hfl := h1 t (Or.inl hpc)
+    refine ⟨?_, ?_, ?_, ?_, ?_, ?_⟩
+    · intro l hl; simp at hl; rw [hfl] at hl; cases hl; simp [upd]
+    · intro u hu
+      by_cases hut : u = t
+      · subst hut; exact h.leader u (Or.inl hpc)
+      · simp [upd, hut] at hu ⊢; exact h.leader u hu
+    · intro u hu
+      by_cases hut : u = t
+      · subst hut; simp [upd] at hu
+      · simp [upd, hut] at hu ⊢; exact h.waiter u hu
+    · exact h.done
+    · intro u hu
+      by_cases hut : u = t
+      · subst hut; simp [upd] at hu
+      · simp [upd, hut] at hu ⊢; exact h.ret u hu
+    · have := h.count; rw [hfl] at this; simp [hpc] at this; simp [upd, hfl, this]
+  · -- pc 2: the query returns, the call is finished
+    rename_i hpc
+    cases hs
+    have hfl := h1 t (Or.inr hpc)
+    have hj := h.leader t (Or.inr hpc)
+    refine ⟨?_, ?_, ?_, ?_, ?_, ?_⟩
+    · intro l hl; simp at hl
+    · intro u hu
+      by_cases hut : u = t
+      · subst hut; simp [upd] at hu
+      · simp [upd, hut] at hu
+        have := h1 u hu; rw [hfl] at this; cases this; exact absurd rfl hut
+    · intro u hu
+      by_cases hut : u = t
+      · subst hut; simp [upd] at hu
+      · simp [upd, hut] at hu ⊢; have := h.waiter u hu; omega
+    · intro g hg
+      simp only [upd]
+      by_cases hgg : g = s.gen
+      · subst hgg; simp
+      · simp [hgg]; exact h.done g (by simp at hg; omega)
+    · intro u hu
+      by_cases hut : u = t
+      · subst hut; simp [upd, hj]
+      · simp [upd, hut] at hu ⊢
+        have := h.ret u hu
+        exact ⟨by omega, this.2⟩
+    · have := h.count; rw [hfl] at this; simp [hpc] at this; simp [this]
+  · -- pc 3: a waiter is released
+    rename_i hpc
+    split at hs
+    · rename_i hlt
+      cases hs
+      have hnl : ∀ l, s.flight = some l → l ≠ t := by
+        intro l hl e; subst e
+        have := h.owner l hl
+        omega
+      refine ⟨?_, ?_, ?_, ?_, ?_, ?_⟩
+      · intro l hl; simp at hl
+        have := h.owner l hl
+        simp [upd, hnl l hl]; exact this
+      · intro u hu
+        by_cases hut : u = t
+        · subst hut; simp [upd] at hu
+        · simp [upd, hut] at hu ⊢; exact h.leader u hu
+      · intro u hu
+        by_cases hut : u = t
+        · subst hut; simp [upd] at hu
+        · simp [upd, hut] at hu ⊢; exact h.waiter u hu
+      · exact h.done
+      · intro u hu
+        by_cases hut : u = t
+        · subst hut; simp [upd]; exact ⟨hlt, h.done _ hlt⟩
+        · simp [upd, hut] at hu ⊢; exact h.ret u hu
+      · have := h.count
+        cases hfl : s.flight with
+        | none => rw [hfl] at this; simpa using this
+        | some l => rw [hfl] at this; simp [upd, hnl l hfl]; exact this
+    · cases hs
+  · cases hs
+
+theorem inv2_reachable {q : Nat → α} {s : Cfg α} (h : Reachable q s) : Inv2 q s := by
+  induction h with
+  | init => exact inv2_init q
+  | step t hr hs ih => exact inv2_step (inv_reachable hr) ih hs
 
 end GoZero.C06.Flight
